@@ -1057,6 +1057,10 @@ func main() {
 	w := out.New(*outDir)
 	defer w.Close()
 	w.Exhaust = true
+	if *mode == "c09" {
+		runC09(w, *tier) // C09 stage cli: c09.go
+		return
+	}
 	var hs []hist
 	useFault := false
 	switch *mode {
